@@ -179,7 +179,17 @@ func TruthEval(c *circuit.Circuit, x []bool) []bool {
 func SplitInputs(c *circuit.Circuit, x []bool) []*big.Int {
 	var res []*big.Int
 	ofs := 0
+	// Circuit.Compute takes one value per FLATTENED argument (the members of a compound
+	// argument count separately)
+	var flat circuit.IO
 	for _, io := range c.Inputs {
+		if len(io.Compound) > 0 {
+			flat = append(flat, io.Compound...)
+		} else {
+			flat = append(flat, io)
+		}
+	}
+	for _, io := range flat {
 		v := new(big.Int)
 		for b := 0; b < int(io.Type.Bits); b++ {
 			if x[ofs] {
